@@ -7,7 +7,7 @@ From FitV Require Import Model.Values Model.Bytes Model.Base Model.Profile Model
   Proofs.ProfileProofs Proofs.DecodeLemmas
   Proofs.StreamDenoteDefs Proofs.StreamDenoteField Proofs.StreamDenoteData Proofs.StreamDenoteLoop Proofs.StreamDenoteLift
   Proofs.StreamDenoteMain Proofs.StreamDenoteFrame Proofs.StreamDenoteDecode Proofs.StreamDenoteCor Proofs.StreamDenoteSkip
-  Proofs.StreamDenoteSlots Proofs.StreamDenoteWitness.
+  Proofs.StreamDenoteSlots Proofs.StreamDenoteWitness Proofs.StreamDenoteStrip Proofs.StreamDenoteChained.
 Import ListNotations.
 Local Open Scope N_scope.
 
@@ -158,7 +158,54 @@ Theorem C02_neighbours_undisturbed : forall be gmn f1 f f2 p1 b b' p2 m ref unl,
 Proof. exact neighbours_undisturbed. Qed.
 Print Assumptions C02_neighbours_undisturbed.
 
-(* PARTIAL (what is not a theorem): DecodeChained on concatenated files is not lifted (Decode only); the statement
-   "deleting unknown content" is proved per kind of content (records of unknown messages as a stream
-   transformation; unlisted fields and developer bytes at the level of one record), not as one combined stream
-   rewriting; streams on the recorded time-defect paths are outside the theorem (C12). *)
+(* unknown_skipped as ONE stream rewriting.  [strip [] rs] deletes from rs everything the profile does not know:
+   unlisted fields from every definition and their bytes from every payload, all developer field definitions and
+   developer bytes, every plain data record of an unknown message, the field lists of definitions of unknown
+   messages; a compressed-timestamp record of an unknown message is kept as a bare header, because its header
+   still advances the time reference (two rollover steps are not one).  [strip_clean] says nothing unknown is left.
+   The stripped stream denotes the same messages and time reference, stays inside the domain of decode_denote, and
+   the decoder returns the same File. *)
+Theorem C02_unknown_skipped : forall rs ss, denote rs = Some ss ->
+  exists ss', denote (strip [] rs) = Some ss' /\ ss_msgs ss' = ss_msgs ss /\ ss_ref ss' = ss_ref ss.
+Proof. exact unknown_skipped. Qed.
+Theorem C02_strip_clean : forall rs, clean (strip [] rs) = true.
+Proof. exact strip_clean. Qed.
+Theorem C02_strip_in_domain : forall h g rs, in_domain h g rs -> in_domain h g (strip [] rs).
+Proof. exact strip_in_domain. Qed.
+Theorem C02_unknown_skipped_decoder : forall o h g rs, in_domain h g rs ->
+  decoded_file o h g (strip [] rs) = decoded_file o h g rs.
+Proof. exact unknown_skipped_decoder. Qed.
+Print Assumptions C02_unknown_skipped_decoder.
+(* when no compressed-timestamp record addresses an unknown message, the definitions of unknown messages go too *)
+Theorem C02_unknown_skipped_all_decoder : forall o h g rs, no_unknown_comp [] rs = true -> in_domain h g rs ->
+  decoded_file o h g (strip_all [] rs) = decoded_file o h g rs.
+Proof. exact unknown_skipped_all_decoder. Qed.
+
+(* DecodeChained on a concatenation of k >= 1 files, each in the domain of decode_denote from the accumulator state
+   the previous one left (chain_domain), followed by a clean EOF, through any reader: no error, exactly k Files,
+   each the routed denotation of its record list (chain_result), all bytes consumed *)
+Theorem C02_DecodeChained_denote : forall o fs g rd fuel,
+  fs <> [] -> chain_domain g fs -> rd_data rd = chain_bytes fs -> rd_term rd = TEOF ->
+  (List.length (rd_data rd) + List.length (rd_sched rd) < fuel)%nat ->
+  exists rd' files' g' q,
+    entry_DecodeChained o g rd fuel = TDone (mk_cres None files' rd' g' q) /\
+    rd_data rd' = [] /\ rd_pos rd' = (rd_pos rd + List.length (chain_bytes fs))%nat /\
+    List.length files' = List.length fs /\ chain_result o g fs files' g'.
+Proof. exact DecodeChained_denote. Qed.
+Print Assumptions C02_DecodeChained_denote.
+(* ... and each of them is the File (and accumulator state, and quirk tags) Decode returns on that file alone from
+   the same accumulator state (C10 flavour; rests on the tail-irrelevance of the abstract interpreter) *)
+Theorem C02_DecodeChained_is_map_Decode : forall o fs g rd fuel,
+  fs <> [] -> chain_domain g fs -> rd_data rd = chain_bytes fs -> rd_term rd = TEOF ->
+  (List.length (rd_data rd) + List.length (rd_sched rd) < fuel)%nat ->
+  exists rd' files' g' q,
+    entry_DecodeChained o g rd fuel = TDone (mk_cres None files' rd' g' q) /\
+    chain_alone o g fs files' g' q.
+Proof. exact DecodeChained_is_map_Decode. Qed.
+Example C02_DecodeChained_example :
+  chain_domain g_init ok_chain /\ rd_data ok_chain_reader = chain_bytes ok_chain /\ rd_term ok_chain_reader = TEOF /\
+  (List.length (rd_data ok_chain_reader) + List.length (rd_sched ok_chain_reader) < 400)%nat.
+Proof. exact ok_chain_in_domain. Qed.
+
+(* PARTIAL (what is not a theorem): streams on the recorded time-defect paths are outside the theorem (C12);
+   DecodeChained is lifted for chains ending in a clean EOF (a chain followed by garbage or a fault is C10/C11). *)
